@@ -49,12 +49,18 @@ type InprocOpts struct {
 	BufferSize  int64
 	// WrapListener lets a check compose listener wrappers like cmd/ does.
 	WrapListener func(net.Listener) net.Listener
+
+	network, laddr string
 }
 
 // StartInprocFs serves the real server+handler over base (wrapped in pkg/fs.FS
 // exactly like cmd/ps3netsrv-go/server.go does).
 func StartInprocFs(base afero.Fs, o InprocOpts) (*Target, error) {
-	ln, err := net.Listen("tcp4", "127.0.0.1:0")
+	network, laddr := "tcp4", "127.0.0.1:0"
+	if o.network != "" {
+		network, laddr = o.network, o.laddr
+	}
+	ln, err := net.Listen(network, laddr)
 	if err != nil {
 		return nil, err
 	}
@@ -79,6 +85,12 @@ func StartInprocFs(base afero.Fs, o InprocOpts) (*Target, error) {
 	}
 	go func() { _ = s.Serve(ln) }()
 	return &Target{Addr: addr, close: func() { _ = ln.Close() }}, nil
+}
+
+// StartInprocListen is StartInproc on a chosen network/address (e.g. tcp6 [::1]:0).
+func StartInprocListen(network, laddr, root string, o InprocOpts) (*Target, error) {
+	o.network, o.laddr = network, laddr
+	return StartInprocFs(afero.NewBasePathFs(afero.NewOsFs(), root), o)
 }
 
 // StartInproc serves a directory through BasePathFs(OsFs, root) like the binary.
@@ -174,6 +186,29 @@ func (b *Bin) WaitListening(addr string, d time.Duration) error {
 			}
 		}
 		time.Sleep(15 * time.Millisecond)
+	}
+	return fmt.Errorf("not listening on %s after %v", addr, d)
+}
+
+// WaitOwnsPort waits until the process holds a listening socket on addr's port, without connecting
+// (a probe connection could consume an admission slot or be filtered).
+func (b *Bin) WaitOwnsPort(addr string, d time.Duration) error {
+	_, port, err := net.SplitHostPort(addr)
+	if err != nil {
+		return err
+	}
+	deadline := time.Now().Add(d)
+	for time.Now().Before(deadline) {
+		select {
+		case <-b.done:
+			return fmt.Errorf("process exited: %v; stderr: %s", b.waitEr, b.Stderr())
+		default:
+		}
+		if pidListensOn(b.Cmd.Process.Pid, port) {
+			b.Addr = addr
+			return nil
+		}
+		time.Sleep(10 * time.Millisecond)
 	}
 	return fmt.Errorf("not listening on %s after %v", addr, d)
 }
